@@ -68,12 +68,11 @@ def octets(d, n, tag):
     return bytes([d.int(0, 255, '%s%d' % (tag, i)) for i in range(n)])
 
 
-def draw_payload(d, paylen):
-    """0..paylen octets, every octet free.  The length is chosen by a forking index: a
-    frame of symbolic *length* makes every `del pduData[0]` of the decoder cost hundreds of
-    solver queries, and the length forks the paths anyway."""
-    n = d.index(paylen + 1, 'paylen')
-    return octets(d, n, 'p')
+def draw_payload(d, paylens):
+    """a payload whose length is picked from `paylens`, every octet free.  The length is
+    chosen by a forking pick: a frame of symbolic *length* makes every `del pduData[0]` of
+    the decoder cost hundreds of solver queries, and the length forks the paths anyway."""
+    return octets(d, d.pick(paylens, 'paylen'), 'p')
 
 
 # ---------------------------------------------------------------------------- npci_rt
@@ -81,11 +80,11 @@ def draw_payload(d, paylen):
              "flag symbolic, priority 0..3 symbolic, DNET / SNET symbolic over 1..65534, station address "
              "length picked from `dlens` / `slens` with every octet symbolic, hop count 0..255 symbolic, message "
              "type symbolic over 0..255 with vendor ID 0..65535 symbolic (mk=net) or absent (mk=apdu), payload "
-             "0..paylen symbolic octets",
-      outside="station address lengths not in `dlens` / `slens`; payloads longer than paylen (copied, not interpreted); "
+             "of a length picked from `paylens` (at most 4) with every octet symbolic",
+      outside="station address lengths not in `dlens` / `slens`; payload lengths not in `paylens` (the payload is copied, not interpreted); "
               "local (non-routed) source/destination which never appear in an NPCI",
       stubs=[], assumes=[])
-def npci_rt(d, dk, sk, mk, dlens, slens, paylen):
+def npci_rt(d, dk, sk, mk, dlens, slens, paylens):
     er = d.bool('er')
     prio = d.int(0, 3, 'prio')
     dshape = sshape = None
@@ -104,7 +103,7 @@ def npci_rt(d, dk, sk, mk, dlens, slens, paylen):
     if mk == 'net':
         msg = d.int(0, 0xFF, 'msg')
         vendor = d.int(0, 0xFFFF, 'vendor')
-    payload = draw_payload(d, paylen)
+    payload = draw_payload(d, paylens)
 
     x = N.NPDU()
     x.pduExpectingReply = er
@@ -171,6 +170,11 @@ def check_decode(d, data):
     data = bytes(data)
     p = R.npci_parse(data)
     d.note(status=p.status, reason=p.reason)
+    # the reference parse has forked on the value of every length octet it used; hand the
+    # library the same octets with those positions written as plain ints (equal by the path
+    # condition, so nothing changes but the cost: see R.pin)
+    for i, k in p.pins:
+        data = data[:i] + bytes([k]) + data[i + 1:]
     y = N.NPDU()
     try:
         y.decode(PDU(data))
@@ -504,16 +508,27 @@ def netmsg_rt(d, mt, lists, nents, infolens):
 def instances(tier):
     q = tier == "quick"
     out = []
+    # --- npci_rt.  Path count per instance = |dlens| x |slens| x |paylens| x 8 (x2 for mk=net):
+    # the library's `control |= priority & 3` and `if expectingReply` enumerate 4 x 2 values
     lens = [1, 2, 6, 7] if q else [1, 2, 6, 7, 255]
     for dk in ('none', 'station', 'rbcast', 'global'):
         for sk in ('none', 'station'):
             for mk in ('apdu', 'net'):
-                # station x station is the big one: one process per destination length
-                split = [[n] for n in lens] if (dk == 'station' and sk == 'station') else [lens]
-                for dl in split:
-                    label = "%s,%s,%s" % (dk, sk, mk) + (",dlen=%d" % dl[0] if len(split) > 1 else "")
-                    out.append(Inst(npci_rt, dict(dk=dk, sk=sk, mk=mk, dlens=dl, slens=lens, paylen=4),
+                both = dk == 'station' and sk == 'station'
+                if q:
+                    # quick: payload of 0 or 3 octets; with both addresses present the source
+                    # is 1 or 6 octets long (all four source lengths run with the other
+                    # destination kinds)
+                    parts = [(lens, [1, 6] if both else lens, [0, 3])]
+                elif both:
+                    parts = [([n], lens, [0, 1, 2, 3, 4]) for n in lens]
+                else:
+                    parts = [(lens, lens, [0, 1, 2, 3, 4])]
+                for dl, sl, pl in parts:
+                    label = "%s,%s,%s" % (dk, sk, mk) + (",dlen=%d" % dl[0] if len(parts) > 1 else "")
+                    out.append(Inst(npci_rt, dict(dk=dk, sk=sk, mk=mk, dlens=dl, slens=sl, paylens=pl),
                                     budget=90 if q else 400, label=label))
+    # --- npci_decode_total
     nmax = 5 if q else 8
     for n in range(0, nmax + 1):
         if n < 5:
@@ -521,11 +536,14 @@ def instances(tier):
         else:
             for hi in range(-1, 8):
                 out.append(Inst(npci_decode_total, dict(n=n, hi=hi), budget=90 if q else 600))
+    # --- npci_mutated
     for dk in ('none', 'station', 'rbcast', 'global'):
         for sk in ('none', 'station'):
             for mk in ('apdu', 'std', 'vendor'):
-                out.append(Inst(npci_mutated, dict(dk=dk, sk=sk, mk=mk, lens=[1, 2] if q else [1, 6]),
-                                budget=90 if q else 400, label="%s,%s,%s" % (dk, sk, mk)))
+                out.append(Inst(npci_mutated, dict(dk=dk, sk=sk, mk=mk, lens=[2] if q else [1, 2, 6],
+                                                   ctl='flip' if q else 'any'),
+                                budget=90 if q else 600, label="%s,%s,%s" % (dk, sk, mk)))
+    # --- netmsg_rt
     for mt in sorted(R.MESSAGE_TYPES):
         out.append(Inst(netmsg_rt, dict(mt=mt, lists=[0, 1, 2, 3] if q else [0, 1, 2, 3, 4, 5],
                                         nents=[0, 1, 2], infolens=[0, 1, 2]),
